@@ -23,8 +23,8 @@ class C17(Prop):
     id = "C17"
     level = "exploration"
     tiers = {
-        "quick": [("default", 60000), ("burst", 30000)],
-        "thorough": [("default", 1500000), ("burst", 700000)],
+        "quick": [("default", 360000), ("burst", 180000)],
+        "thorough": [("default", 7200000), ("burst", 3600000)],
     }
     rule_text = (
         "one case = one generated driver-op list (<=40 ops over enqueue/enqueue-many/finish/finish(error)/"
